@@ -232,7 +232,15 @@ Grp(terms, defs) == <<terms, defs>>
 DefLists == {DefList(<<Grp(<<t>>, <<d1>>)>>) : t \in DefTexts, d1 \in DefTexts}
             \cup {DefList(<<Grp(<<T1("alpha"), T1("x1")>>, <<d1, d2>>)>>) : d1 \in DefTexts, d2 \in DefTexts}
             \cup {DefList(<<Grp(<<T1("alpha")>>, <<T1("beta")>>), Grp(<<t>>, <<d1>>)>>) : t \in DefTexts, d1 \in {T1("x1"), <<Inl("st", "x1", "", "")>>}}
-Singles == {Para(p) : p \in ParaLines} \cup {Atx(l, h) : l \in {1, 2, 3, 6}, h \in HeadTexts} \cup {Setext(l, h) : l \in {1, 2}, h \in HeadTexts} \cup {Hr}
+\* verbatim lines whose white space matters: two trailing blanks, then a line indented by one blank
+TrailSp == [a |-> "if x:  ", b |-> "if x:  "]
+LeadSp == [a |-> " y = 1", b |-> " y = 1"]
+\* a paragraph with very many unmatched '<' before an ordinary link (the pairing engine changes strategy beyond 1000 pending openers)
+RECURSIVE RepInl(_, _)
+RepInl(i, n) == IF n = 0 THEN <<>> ELSE <<i>> \o RepInl(i, n - 1)
+BigParas == {Para(RepInl(Inl("ent", "1 < 2", "1 &lt; 2", ""), n) \o tail) : n \in {998, 999, 1000, 1001, 1400},
+               tail \in {<<Inl("link", "alpha", "http://u.rl/p", "")>>, <<Inl("em", "beta", "", ""), Inl("img", "alt", "i.png", ""), Inl("auto", "http://a.b/c", "", "")>>}}
+Singles == {Para(p) : p \in ParaLines} \cup {Fenced("", <<TrailSp, LeadSp>>), Fenced("c", <<LeadSp, TrailSp, LeadSp>>), Indented(<<TrailSp, LeadSp>>)} \cup {Atx(l, h) : l \in {1, 2, 3, 6}, h \in HeadTexts} \cup {Setext(l, h) : l \in {1, 2}, h \in HeadTexts} \cup {Hr}
            \cup {Fenced(i, <<c>>) : i \in {"", "c"}, c \in CodeLines} \cup {Fenced("", <<c1, c2>>) : c1 \in CodeLines, c2 \in CodeLines} \cup {Indented(<<c>>) : c \in CodeLines}
            \cup Tables \cup DefLists
 Simple == {Para(<<T("alpha")>>), Para(<<Inl("st", "x1", "", ""), T("beta")>>), Atx(2, <<T("beta")>>), Setext(1, <<T("x1")>>), Hr,
@@ -266,6 +274,7 @@ VARIABLE g
 Init == CASE Family = "single"    -> g \in UNION {{[d |-> <<b>>, sp |-> s] : s \in SpFor(b)} : b \in Singles \cup Containers}
           [] Family = "pair"      -> g \in {[d |-> <<a, b>>, sp |-> DefaultSp] : a \in Independent, b \in Independent}
           [] Family = "notes"     -> g \in {[d |-> d, sp |-> DefaultSp] : d \in NoteDocs}
+          [] Family = "big"       -> g \in {[d |-> <<b>>, sp |-> DefaultSp] : b \in BigParas} \cup {[d |-> <<Para(<<T("alpha")>>), b>>, sp |-> DefaultSp] : b \in BigParas}
           [] OTHER                -> g = [d |-> <<>>, sp |-> RandomElement(Sps)]
 Next == Family = "random" /\ Len(g.d) < MaxBlocks /\ g' = [g EXCEPT !.d = Append(@, RandomElement(Simple \cup Containers \cup Singles))]
 \* adjacent blocks that would merge or re-interpret each other are outside the unambiguous subset
